@@ -74,12 +74,16 @@ def run(ctx):
         if k not in seen and len(h) > 1:
             seen.add(k)
             hists.append(h)
+    rng = random.Random(ctx.seed)
     if ctx.tier != "thorough":
         # a slow peer costs 33 s of wall time: the quick tier keeps four of the histories that contain one (they run beside the others)
         slow = [h for h in hists if "slow_peer" in h]
         keep = [["slow_peer", "valid"]] + [h for h in slow if h[0] != "slow_peer" or len(h) > 2][ctx.seed % 5::7][:3]
         hists = [h for h in hists if "slow_peer" not in h] + keep
-    rng = random.Random(ctx.seed)
+    else:
+        # thorough: forty of them (each costs 33 s per slow peer in it), every other history in full
+        slow = [h for h in hists if "slow_peer" in h]
+        hists = [h for h in hists if "slow_peer" not in h] + [["slow_peer", "valid"]] + rng.sample(slow, min(40, len(slow)))
     if ctx.tier != "thorough":
         # all histories of length <= 2, plus a sample of longer ones taken from a deeper model run
         r3 = tlc.model_check("Tacd", MC_CFG % (tlc.tla_set(LABELS), "{}", 4), "C17_mc4", workers=4, timeout=900)
